@@ -145,6 +145,10 @@ def c09(ctx):
     buffer_traces(ctx)
 
 
+def c08(ctx):
+    printer_slice(ctx, tier(ctx, "qcompose", "compose"))
+
+
 def c16(ctx):
     for sl in tier(ctx, ["qcls", "wrap"], ["cls", "wrap", "panic", "smoke", "qbytes"]):
         printer_slice(ctx, sl, extra_consts=dict(Routes="TRUE"))
@@ -162,6 +166,15 @@ PRINTER_RULE = ("TLC runs the Printer specification (transcription of printArg/h
                 "and the property's predicate evaluated on the real output; distinct = distinct real outputs. ")
 
 PROPS = {
+    "C08": dict(run=c08, exhaustive=True, rule=PRINTER_RULE + (
+        "C08: slice compose: for every payload p over {E2,80,B9,BA,'a',LF} up to 1 (quick) / 2 (thorough) bytes the redactable "
+        "r = Sprint(p) is computed by the model (escaped forms, split lines), then printed again with 7 directives "
+        "(%v %s %5q %-8x %.1s %d %+v) in 7 container shapes (top, slice, map value with a redactable key, exported and "
+        "unexported field, pointer-to-struct, slice inside an unexported field) as RedactableString and RedactableBytes, "
+        "concatenated by Sprintf with literals, joined with 3 delimiters and the joined value printed again; model "
+        "invariants: identity, concatenation, Redact/Strip distribute, closure; on the real code the expectation is "
+        "obtained relationally (same call with plain placeholders) and Join/JoinTo are run on the real strings"), assumptions=[
+        "%T and %p are excluded (property text)"]),
     "C16": dict(run=c16, exhaustive=True, rule=PRINTER_RULE + (
         "C16: for every case of the slices (classification shapes, wrapper nestings; thorough: also panicking methods, smoke, "
         "concrete hot bytes) TLC evaluates the four routes (direct, StringBuilder.Print/Printf = PreRedactable write of a "
